@@ -29,7 +29,7 @@ RULE = (
     "other texts in between); non-trivial = text of >= 2 tokens; distinct = distinct texts"
 )
 ASSUMPTIONS = ["an invalid regular expression inside a pattern counts as a reported definition error, not as a well-formed text"]
-MUST_SEE = ["regex_engine_limit_literals", "regex_inner_whitespace", 
+MUST_SEE = ["regex_unpaired_brackets", "regex_engine_limit_literals", "regex_inner_whitespace", 
     "xpath_accepted", "xpath_rejected", "pattern_accepted", "pattern_rejected", "mutations_still_valid", "whitespace_variants", "recompiles_cold",
     "recompiles_hot", "unknown_class", "non_node_class", "duplicate_capture", "var_before_capture", "var_inside_own_capture", "random_strings", "late_defined_class", "compile_after_rejected", "escaped_quote_regexes",
 ]
@@ -192,8 +192,14 @@ def run_shard(ctx):
         m, _ = NodeMatcher.from_pattern(text)
         if m is None:
             bad("recompile", f"a pattern accepted before is rejected when compiled again ({mode})", text=text)
-        elif pattern_vec(m) != vec0:
-            bad("recompile", f"behaviour changed when the same pattern text was compiled again ({mode})", text=text)
+        else:
+            try:
+                same = pattern_vec(m) == vec0
+            except Exception as e:  # noqa: BLE001
+                bad("recompile", f"a pattern that compiled and matched before raises when compiled again and used ({mode}): {type(e).__name__}: {e}"[:300], text=text)
+                return
+            if not same:
+                bad("recompile", f"behaviour changed when the same pattern text was compiled again ({mode})", text=text)
 
     def recompile_xpath(text, vec0, rng):
         mode = rng.choice(["hot", "cold"])
@@ -363,6 +369,10 @@ def run_shard(ctx):
         for rx in ('a\\"', '\\"x\\"', 'say \\"hi\\"', '\\"', 'x\\\\', '[\\"a]+'):
             ctx.count("escaped_quote_regexes")
             check_pattern(f'({P}Leaf @s="{rx}")', "accept", "escaped-quote-regex")
+        # regex literals holding brackets that are not paired as text (escaped, or inside a character class)
+        for rx in ("\\(", "^:-\\)$", "a[(]b", "^\\[x", "[)\\]]+", "\\)\\)\\("):
+            ctx.count("regex_unpaired_brackets")
+            check_pattern(f'({P}Leaf @s="{rx}")', "accept", "regex-unpaired-brackets")
         # regex literals the regex engine refuses with something other than re.error (repetition counts beyond its limits)
         for rx in ("x{4294967295}", "ab{2,99999999999}", "(a{65536}){65536}", "a{1,4294967296}"):
             ctx.count("regex_engine_limit_literals")
